@@ -377,10 +377,16 @@ def run(ctx):
         n += 1
     ctx.extra('distinct_output_shapes_enum', len(shapes))
     ctx.extra('byte_class_bigrams_seen_random', {f'{a}>{b}' for a, b in bigrams})
+    from .. import coldstart
+    n += coldstart.phase(ctx, coldstart.parser_overlap_jobs(), 'messages valid', kind='cold', offset=9)
     ctx.count('cases', n)
 
 
 def replay(ctx, case):
+    if case.get('kind') == 'cold':
+        from .. import coldstart
+        coldstart.replay(ctx, case, 'messages valid')
+        return
     if case.get('kind') == 'two-parsers':
         print('two-parsers cases are re-run from the seed by the whole check; inputs:', case['a'], case['b'])
         return
